@@ -115,4 +115,13 @@ CHECKS = {
         note=COMMON_NOTE + " Exactness rests on sigmoid/tanh saturation at |x| >= 1024; trajectories with default activations on ordinary values are outside the claim.",
         technique="TLA+ state-machine semantics of the recurrences + TLC BFS case enumeration with exact-regime guard, replayed into operator API and Model.Run",
         design_ref="DESIGN.md section 6 (C06)"),
+    "C12": dict(
+        text="Bounded-exhaustive: spec/Decode.tla defines TensorProto decoding on byte tuples (raw payload chunked little-endian, typed "
+             "carriers narrowed to the low bytes, element count = product of dims), so 64-bit types need no 64-bit arithmetic in TLC; TLC "
+             "enumerates types x encodings x shapes x bit patterns x payload lengths x unsupported codes and computes the exact expected "
+             "bytes or 'error'; the harness builds the TensorProto, decodes it through both entry points and compares dtype, shape and "
+             "every element bit for bit (NaN payloads included); never a panic.",
+        note=COMMON_NOTE,
+        technique="TLA+ byte-level decode semantics + TLC BFS case enumeration, replayed into TensorFromProto and NewModelFromBytes+Run; defect model for the known finding",
+        design_ref="DESIGN.md section 6 (C12)"),
 }
